@@ -30,7 +30,8 @@ LEVEL_TEXT = ("Real child processes (well-behaved, exiting at every step k of th
               ' Also a flood without line breaks (repeated attempts, race-dependent), and (virtual time, scripted child) a request pending on the per-request API when the child dies / the context is left.'
               ' Also exits that take longer than the designed 2.5 s plus slack are measured again twice (three in a row are a violation); the longest exit per child and exit path is recorded in the evidence.'
               ' Also a child that floods batch arrays and never reads its stdin, on a connection settled on a revision without batching (and one with).'
-              ' Also two requests pending on the per-request API under ids of different JSON types when the context is left.')
+              ' Also two requests pending on the per-request API under ids of different JSON types when the context is left.'
+              " Also a native cancellation delivered by a watcher the moment the child's exit status is known (between the grace period and the release of the pipes).")
 LEVEL_NOTE = ("Trusted: /proc inspection, the spy around anyio.open_process (records pids of every spawn). Wall-clock bound "
               "uses 1.5 s slack; a breach is re-measured once in isolation and only a reproduced breach is a violation "
               "(a single one is inconclusive).")
